@@ -46,7 +46,7 @@ theorem chgA_quiet {s s' : State} (q : QuietStep s s') : RChg s s' := RChg.of_al
 
 theorem unbind_chgA (F : Plugin.Facts) (s : State) (pod : Pod) : RChg s (unbind F s pod).1 := by
   unfold unbind
-  dsimp only
+  try dsimp only
   split
   · exact RChg.refl s
   · have u := chgA_quiet (unassignAll_quiet (ipsOfKey s (keyOf pod)) s)
@@ -70,9 +70,22 @@ theorem deliver_chgA (F : Plugin.Facts) (s : State) (i : Nat) : RChg s (deliver 
       · exact h2
       · exact h2.trans (RChg.of_alloc_eq rfl)
 
+theorem resyncAct_chgA (s : State) (ip : IP) (k : Key) (r : Rec) : RChg s (resyncAct s ip k r) := by
+  unfold resyncAct
+  split
+  · have pu := chgA_quiet (provUnassign_quiet s r.node ip)
+    split
+    · exact pu
+    · have rs := pu.trans (chgA_of_cleared (reserveSelf_chgC _ k))
+      split
+      · exact rs.trans (chgA_of_cleared (unbindDp_chgC _ _ _))
+      · exact rs.trans (chgA_of_cleared (unbindOther_chgC _ _ _))
+  · split
+    · exact chgA_of_cleared (unbindDp_chgC _ _ _)
+    · exact chgA_of_cleared (unbindOther_chgC _ _ _)
+
 theorem resyncOne_chgA (F : Plugin.Facts) (s : State) (ip : IP) (r0 : Rec) : RChg s (resyncOne F s ip r0) := by
   unfold resyncOne
-  dsimp only
   split
   · exact RChg.refl s
   · rename_i r _
@@ -81,17 +94,10 @@ theorem resyncOne_chgA (F : Plugin.Facts) (s : State) (ip : IP) (r0 : Rec) : RCh
     · have pr := chgA_quiet (podRunning_quiet F s r0.key.pod r0.key.ns r.uid).1
       split
       · exact pr
-      · split
-        · have pu := pr.trans (chgA_quiet (provUnassign_quiet (podRunning F s r0.key.pod r0.key.ns r.uid).1 r.node ip))
-          split
-          · exact pu
-          · have rs := pu.trans (chgA_of_cleared (reserveSelf_chgC _ r0.key))
-            split
-            · exact rs.trans (chgA_of_cleared (unbindDp_chgC _ _ _))
-            · exact rs.trans (chgA_of_cleared (unbindOther_chgC _ _ _))
-        · split
-          · exact pr.trans (chgA_of_cleared (unbindDp_chgC _ _ _))
-          · exact pr.trans (chgA_of_cleared (unbindOther_chgC _ _ _))
+      · have ko := pr.trans (chgA_quiet (keyOwned_quiet F (podRunning F s r0.key.pod r0.key.ns r.uid).1 r0.key r.uid).1)
+        split
+        · exact ko
+        · exact ko.trans (resyncAct_chgA _ ip r0.key r)
 
 theorem resyncLoop_chgA (F : Plugin.Facts) (snap : Tbl IP Rec) : ∀ (l : List IP) (s : State),
     RChg s (resyncLoop F snap s l) := by
@@ -121,6 +127,19 @@ theorem releasePre_chgA (s : State) (node : String) (ip : IP) (k : Key) : RChg s
     · exact pu.trans (chgA_of_cleared (reserveSelf_chgC _ k))
   · exact RChg.refl s
 
+theorem releaseAct_chgA (F : Plugin.Facts) (s : State) (ip : IP) (k : Key) (uid : Nat) (node : String) :
+    RChg s (releaseAct F s ip k uid node).1 := by
+  unfold releaseAct
+  have ko := chgA_quiet (keyOwned_quiet F s k uid).1
+  split
+  · exact ko
+  · generalize (keyOwnedByRunningPod F s k uid).1 = t at ko ⊢
+    have rp := ko.trans (releasePre_chgA t node ip k)
+    generalize releasePre t node ip k = x at rp ⊢
+    split
+    · exact rp.trans (chgA_of_cleared (release_chgC x.1 k ip))
+    · exact rp
+
 theorem apiRelease_chgA (F : Plugin.Facts) (s : State) (ip : IP) (k : Key) : RChg s (apiRelease F s ip k).1 := by
   unfold apiRelease
   split
@@ -128,13 +147,7 @@ theorem apiRelease_chgA (F : Plugin.Facts) (s : State) (ip : IP) (k : Key) : RCh
   · have pr := chgA_quiet (podRunning_quiet F s k.pod k.ns (((Tbl.get s.alloc ip).map (·.uid)).getD 0)).1
     split
     · exact pr
-    · generalize (podRunning F s k.pod k.ns (((Tbl.get s.alloc ip).map (·.uid)).getD 0)).1 = t at pr ⊢
-      generalize ((Tbl.get s.alloc ip).map (·.node)).getD "" = node
-      have rp := pr.trans (releasePre_chgA t node ip k)
-      generalize releasePre t node ip k = x at rp ⊢
-      split
-      · exact rp.trans (chgA_of_cleared (release_chgC x.1 k ip))
-      · exact rp
+    · exact pr.trans (releaseAct_chgA F _ ip k _ _)
 
 /-- Filter changes only free addresses and records of a bare deployment / pool prefix -/
 theorem filter_chgP (s : State) (hc : Coherent s) (ns name : String) (nodes : List String) (ch : Choice) :
